@@ -268,6 +268,10 @@ def _run_chunk(exe, seed, a, b, args, env, timeout, tsan):
                 r.violations.append({"key": key, "case": kase, "seed": seed, "detail": err[-1500:], "desc": desc,
                                      "args": list(args)})
         r.evaluations += max(0, kase - cur + 1)
+        # a case that did not finish: the rest of this chunk is not attempted (every further stuck case costs a whole
+        # watchdog period and cannot change the verdict)
+        if hung or any(str(v.get("key", "")).startswith(("hang:", "logt:case-does-not-finish")) for v in r.violations):
+            return r
         if kase < cur:
             r.harness_errors.append("case marker %d before chunk start %d" % (kase, cur))
             return r
